@@ -109,6 +109,22 @@ func facts(f *hc.Facts) {
 		}
 	}
 	f.Str("acceptUses", strings.Join(aused, " "), "sub-expressions found in Accept")
+	// Obfuscated2.Read: the bytes are decrypted before an error of the underlying Read can end the call
+	decFirst := false
+	if fd := f.FuncDecl(dir, "Obfuscated2.Read"); fd != nil && fd.Body != nil {
+		xorAt, retAt := -1, -1
+		for i, st := range fd.Body.List {
+			src := squash(f.Src(st))
+			if xorAt < 0 && strings.Contains(src, "o.decrypt.XORKeyStream(b[:n],b[:n])") {
+				xorAt = i
+			}
+			if is, ok := st.(*ast.IfStmt); ok && retAt < 0 && strings.Contains(squash(f.Src(is.Cond)), "err!=nil") && !strings.Contains(src, "XORKeyStream") {
+				retAt = i
+			}
+		}
+		decFirst = xorAt >= 0 && (retAt < 0 || xorAt < retAt)
+	}
+	f.Bool("readDecryptsWithError", decFirst, "Obfuscated2.Read: XORKeyStream(b[:n]) is not preceded by `if err != nil { return }`")
 }
 
 type pipeRW struct {
@@ -133,8 +149,13 @@ func chunks(r *hc.RNG, data []byte) [][]byte {
 	return out
 }
 
-// listReader returns exactly the prepared chunks, one per Read.
-type listReader struct{ chunks [][]byte }
+// listReader returns exactly the prepared chunks, one per Read.  With eofWithLast the last chunk is
+// returned together with io.EOF, which the io.Reader contract allows ("a Reader returning a non-zero
+// number of bytes at the end of the input stream may return either err == EOF or err == nil").
+type listReader struct {
+	chunks      [][]byte
+	eofWithLast bool
+}
 
 func (l *listReader) Read(p []byte) (int, error) {
 	if len(l.chunks) == 0 {
@@ -146,6 +167,9 @@ func (l *listReader) Read(p []byte) (int, error) {
 		l.chunks[0] = c[n:]
 	} else {
 		l.chunks = l.chunks[1:]
+	}
+	if l.eofWithLast && len(l.chunks) == 0 {
+		return n, io.EOF
 	}
 	return n, nil
 }
@@ -294,12 +318,16 @@ func run(c *hc.Ctx) error {
 		}
 		wireDown := append([]byte{}, sconn.out.Bytes()...)
 		upChunks, downChunks := chunks(r, wireUp), chunks(r, wireDown)
-		sconn.in = &listReader{chunks: append([][]byte{}, upChunks...)}
+		eofLast := r.Chance(30)
+		if eofLast {
+			c.Count("data.last-chunk-with-EOF")
+		}
+		sconn.in = &listReader{chunks: append([][]byte{}, upChunks...), eofWithLast: eofLast}
 		gotUp, _ := io.ReadAll(srv)
-		cconn.in = &listReader{chunks: append([][]byte{}, downChunks...)}
+		cconn.in = &listReader{chunks: append([][]byte{}, downChunks...), eofWithLast: eofLast}
 		gotDown, _ := io.ReadAll(cl)
 		wantUp, wantDown := bytes.Join(c2s, nil), bytes.Join(s2c, nil)
-		dline := fmt.Sprintf("data %s %s %d %s %s %s %s %s", hc.Hex(tape), hc.Hex(tag[:]), dc, hc.Hex(secret), hexList(c2s), hexList(upChunks), hexList(s2c), hexList(downChunks))
+		dline := fmt.Sprintf("data %s %s %d %s %s %s %s %s %v", hc.Hex(tape), hc.Hex(tag[:]), dc, hc.Hex(secret), hexList(c2s), hexList(upChunks), hexList(s2c), hexList(downChunks), eofLast)
 		c.Eval(dline, len(wantUp)+len(wantDown) > 0)
 		if !bytes.Equal(gotUp, wantUp) {
 			fail(c, "stream-client-to-server", dline, fmt.Sprintf("server read %d bytes, client wrote %d (or content differs)", len(gotUp), len(wantUp)))
